@@ -149,6 +149,11 @@ def run(ctx):
             rep.ok("C16.R4", Cp, r["desc"])
         else:
             rep.bad("C16.R4", Cp, c, "; ".join(r["problems"]), f"{SB}:{c.lineno}")
+    nloc, bad = proxrule.check_locality(pf, tags)
+    for node, msg in bad:
+        rep.bad("C16.R4", f"{SB}:consistent_initial_conditions.prox", proxrule._stmt_of(node) if not isinstance(node, ast.stmt) else node, msg, f"{SB}:{node.lineno}")
+    if not bad:
+        rep.ok("C16.R4", f"{SB}:consistent_initial_conditions.prox", f"per-contact locality: {nloc} uses of contact arrays all indexed with the contact's own i_N / i_F")
     # stick/slip split: the slip branch uses the velocity gamma_F, the stick branch the acceleration gamma_F_dot
     ifs = [n for n in ast.walk(pf) if isinstance(n, ast.If) and "isclose" in norm_src(n.test) and "gamma_F" in norm_src(n.test)]
     if ifs:
@@ -180,6 +185,8 @@ MUTANTS = [
          old="            b[: system.nu] += W_N @ la_N1 + W_F @ la_F1", new="            b[: system.nu] += W_N @ la_N1", expect="C16.R1"),
     dict(id="c16-m9", what="friction reservoir scaled by the friction force instead of the linked normal force", file=SB,
          old="                la_Ni = la_N[i_N]\n", new="                la_Ni = la_F[i_F]\n", expect="C16.R4"),
+    dict(id="c16-m11", what="stick/slip decision looks at the slip velocities of all contacts (seeded/C16-1)", file=SB,
+         old="                norm(gamma_Fi), 0, atol=IS_CLOSE_ATOL", new="                norm(gamma_F), 0, atol=IS_CLOSE_ATOL", expect="C16.R4"),
     dict(id="c16-m10", what="g_ddot checked at zero accelerations", file=SB,
          old="    g_ddot0 = system.g_ddot(t0, q0, u0, u_dot0)", new="    g_ddot0 = system.g_ddot(t0, q0, u0, np.zeros_like(u0))", expect="C16.R3"),
 ]
